@@ -4,4 +4,7 @@ CONSTANT Scalars <- MCScalars1
 SPECIFICATION Spec
 INVARIANT PropertiesHold
 INVARIANT Emit
+INVARIANT ConvertRoundTrip
+INVARIANT AddSubInverse
+INVARIANT MulDivInverse
 CHECK_DEADLOCK FALSE
